@@ -42,6 +42,7 @@ def cases(tier):
         out.append({"name": f"generator-after-{pre}/k2", "kind": "generator", "k": 2, "K": 2 if tier == "quick" else 3, "pre": pre})
     out.append({"name": "non-generable", "kind": "nongen"})
     out.append({"name": "real-components", "kind": "real"})
+    out.append({"name": "real-components-with-hydrogen", "kind": "realh"})
     return out
 
 
@@ -71,6 +72,9 @@ def _prepare(c, g, k):
 
     def make_stub(i, mol):
         def gen(prefix=None, rng=None):
+            if len(log["generated"]) >= 10:
+                # unwinding bound: S <= K * 10 and every molecule weighs at least 10, so no iteration needs that many molecules
+                raise core.emulated(RuntimeError("unwinding bound: more than 10 molecules generated"))
             m = c.fresh_real(f"m{len(log['generated'])}", 10, 1e4)
             full = c.fresh_bool(f"full{len(log['generated'])}")
             fm = FakeMolGen(i, len(log["generated"]), m, full)
@@ -110,7 +114,10 @@ def run_case(case, g, tier, res):
                 try:
                     if pre == "partial":
                         it0 = iter(system.generator)
-                        next(it0)  # one molecule is taken, then the iteration is abandoned (the iterator stays alive)
+                        try:
+                            next(it0)  # one molecule is taken, then the iteration is abandoned (the iterator stays alive)
+                        except StopIteration:
+                            raise core.Infeasible()
                         c.data["keepalive"] = it0
                     elif pre == "complete":
                         for _m in system.generator:
@@ -152,7 +159,7 @@ def run_case(case, g, tier, res):
                 c.prove(len(gen) == n + 1 and Not(gen[-1].fully_generated), "exception only for an incomplete molecule", detail("generator raised without an incomplete molecule", info))
             return n, type(exc).__name__
 
-        explore_case(res, h, tier, on_path=on_path)
+        explore_case(res, h, tier, on_path=on_path, budget_s=600)
     elif kind == "single":
         k = case["k"]
 
@@ -196,6 +203,43 @@ def run_case(case, g, tier, res):
                 c.prove(Or(*why), "single generation refuses only the non-generable / incomplete", detail("single generation raised for a generable component", info))
                 c.prove(Not(And(Not(gflags[i]), len(log["generated"]) > 0)), "generability checked before generating", detail("a non-generable component was generated", info))
             return out is not None
+
+        explore_case(res, h, tier, on_path=on_path)
+    elif kind == "realh":
+        # a component without heavy atoms ([H][H], heavy-atom mass 0) next to methane: the accumulated mass is the HEAVY-ATOM mass
+        # of the yielded molecules, recomputed here with RDKit from their SMILES (at most two hydrogen molecules per iteration)
+        from rdkit import Chem
+        from rdkit.Chem import Descriptors as _D
+
+        def h(c):
+            system = g.System("[H][H].|50%|C.|100|")
+            S = c.fresh_real("S", 1, 30)
+            f0 = c.fresh_real("f0", 0, 100, lo_strict=True)
+            c.assume(f0 < 100)
+            for mol, f in zip(system._molecules, (f0, 100 - f0)):
+                mol.mixture._relative_mass = f
+                mol.mixture._system_mass = S
+                mol.mixture._absolute_mass = f / 100.0 * S
+            rng = SymRng()
+            System.generator.fget.__defaults__ = (rng,)
+            info = lambda: {"S": S, "f0": f0, "picks": str([r.index for r in rng.calls])}
+            out = []
+            nh = 0
+            for m in system.generator:
+                out.append(m)
+                if m.smiles in ("[H][H]", "[HH]"):
+                    nh += 1
+                    if nh > 2:
+                        raise core.Infeasible()  # bound of the exploration: at most two hydrogen molecules
+                c.prove(len(out) <= 6, "unwinding bound", detail("more molecules than the bound", info))
+            tot = 0.0
+            for j, m in enumerate(out):
+                hm = _D.HeavyAtomMolWt(Chem.MolFromSmiles(m.smiles))
+                c.prove(abs(m.weight - hm) < 1e-6, "the mass booked for a molecule is its heavy-atom mass", detail("a yielded molecule is booked with another mass than its heavy-atom mass", info))
+                if j == len(out) - 1:
+                    c.prove(And(tot < S, tot + hm >= S), "stop exactly at the system mass", detail("iteration does not stop at the first molecule reaching the system mass (heavy-atom masses recomputed)", info))
+                tot += hm
+            return len(out)
 
         explore_case(res, h, tier, on_path=on_path)
     elif kind == "real":
@@ -268,6 +312,33 @@ def replay(rp, gb):
             raised = True
         bad = system.generable is not False or not raised
         return bad, f"generable={system.generable} raised={raised}"
+    if kind == "realh":
+        from rdkit import Chem
+        from rdkit.Chem import Descriptors as _D
+
+        system = gb.System("[H][H].|50%|C.|100|")
+        S, f0 = vals["S"], vals["f0"]
+        for mol, f in zip(system._molecules, (f0, 100 - f0)):
+            mol.mixture._relative_mass = f
+            mol.mixture._system_mass = S
+            mol.mixture._absolute_mass = f / 100.0 * S
+        rng = ScriptedRng(eval(vals["picks"]))
+        System.generator.fget.__defaults__ = (rng,)
+        out = []
+        try:
+            for m in system.generator:
+                out.append(m)
+                if len(out) > 10:
+                    break
+        except ReplayDone:
+            pass
+        bad, tot = [], 0.0
+        for j, m in enumerate(out):
+            hm = _D.HeavyAtomMolWt(Chem.MolFromSmiles(m.smiles))
+            if abs(m.weight - hm) > 1e-6:
+                bad.append(f"{m.smiles} booked {m.weight}, heavy-atom mass {hm}")
+            tot += hm
+        return bool(bad), f"yielded {[m.smiles for m in out]} S={S}: {bad}"
     if kind == "real":
         import numpy as np
 
